@@ -1,4 +1,4 @@
-\* C15 / MemRW.tla -- (G) every breakpoint placement (<= 3 of 5 sites) printed with the specification's answer; alg = disasm.rs as written
+\* C15 / MemRW.tla -- (G) every breakpoint placement (<= 3 of 5 sites) printed with the specification's answer; algmasked = disasm.rs as written, algraw = the DAP handler
 CONSTANTS
     W = 4
     Lo = 4
